@@ -227,4 +227,23 @@ def returningIdx (l : List (String × String × List String × Bool)) : List Nat
 def depProgs : List (String × List CStep) :=
   [("Call", progCall), ("CallCode", progCallCode), ("DelegateCall", progDelegateCall), ("StaticCall", progStaticCall), ("create", progCreate)]
 
+/-! ## round 5 — CREATE2
+
+`opCreate2` reaches the frame discipline through `(*EVM).Create2`, `opCreate` through `(*EVM).Create`; both are regenerated
+(`Gen.C09Dep.createEntries`) and must be nothing but "compute the address, then `return evm.create(…)`" — the program
+`progCreate` that `evm_create_program_as_modelled` is about.  What distinguishes them is the address argument alone. -/
+
+/-- an entry point hands the frame to `evm.create` as its LAST statement and passes the results through; before that it
+calls no StateDB method other than reading a nonce -/
+def createEntryOk (e : String × List String × Bool × String × String × List String) : Bool :=
+  e.2.2.1 && e.2.2.2.2.1 == "contractAddr" && e.2.2.2.2.2.all (fun m => m == "GetNonce")
+
+/-- the reviewed entry points, character for character -/
+def reviewedCreateEntries : List (String × List String × Bool × String × String × List String) := [
+  ("Create", ["contractAddr = crypto.CreateAddress(caller.Address(), evm.StateDB.GetNonce(caller.Address()))",
+              "return evm.create(caller, &codeAndHash{code: code}, gas, value, contractAddr, CREATE)"], true, "CREATE", "contractAddr", ["GetNonce"]),
+  ("Create2", ["codeAndHash := &codeAndHash{code: code}",
+               "contractAddr = crypto.CreateAddress2(caller.Address(), salt.Bytes32(), codeAndHash.Hash().Bytes())",
+               "return evm.create(caller, codeAndHash, gas, endowment, contractAddr, CREATE2)"], true, "CREATE2", "contractAddr", [])]
+
 end FxVerif.Model.C09
